@@ -290,8 +290,10 @@ def recorder_isolation(ctx: Ctx) -> None:
     # register_namespace is first-wins on the recorder and nothing else reads PushParser.ns_map
     rn = ctx.repo.func(f"{P}.mixins:PushParser.register_namespace")
     sts = [st for st, tgt, v in stores(rn.node) if isinstance(tgt, ast.Subscript) and unparse(tgt.value) == "ns_map"]
-    ok = len(sts) == 1 and any((t == "_notin_" and pol) or (t == "_in_" and not pol) for t, pol, _ in control_deps(rn, sts[0])) and not [
-        c for c in calls_in(rn.node) if isinstance(c.func, ast.Attribute) and c.func.attr in MUTATORS and unparse(c.func.value) == "ns_map"]
+    muts = [c for c in calls_in(rn.node) if isinstance(c.func, ast.Attribute) and c.func.attr in MUTATORS and unparse(c.func.value) == "ns_map"]
+    guarded_store = len(sts) == 1 and any((t == "_notin_" and pol) or (t == "_in_" and not pol) for t, pol, _ in control_deps(rn, sts[0])) and not muts
+    first_wins_call = not sts and len(muts) == 1 and muts[0].func.attr == "setdefault" and len(muts[0].args) == 2  # dict.setdefault keeps an existing binding
+    ok = guarded_store or first_wins_call
     ctx.ob("register_namespace only adds unseen prefixes to the map it is given", ok, at=rn, construct="register first wins", msg="recorder semantics changed")
     readers = []
     for fi in ctx.repo.funcs_in("xsdata.formats"):
